@@ -32,7 +32,7 @@ FUNCTIONS = ['codegen_op', 'codegen_ip', 'codegen_lc', 'codegen_rc', 'codegen_sp
              'filter_func/keyout_func closures (bit-vector execution)', 'generated functions op_/ip_/lc_/rc_/sp_/cp_/acp_<A>_x_<B>']
 ASSUMPTIONS = ['coefficients are reals (polynomial identities => any commutative ring containing 1/2 for cp/acp)',
                'patterns/configurations enumerated; coefficient values symbolic; blade indices symbolic up to width W in Engine B']
-BOUNDS = {'quick': 'd<=2 all ordered pattern pairs (sampled per signature beyond three base signatures), d=3 sampled subsets + grade unions + single blades, d=4,5 grade unions/random sparse, d=7 on fresh algebras (lazy table, cp/acp first); wrapper slices with a second pass; custom bases and explicit orderings sampled; Engine B width W=10; twin algebras coexisting in one process',
+BOUNDS = {'quick': 'd<=2 all ordered pattern pairs (sampled per signature beyond three base signatures), d=3 sampled subsets + grade unions + single blades, d=4,5 grade unions/random sparse, d=7 on fresh algebras (lazy table, cp/acp first); d=9,10 sparse operands with blade masks >= 256; wrapper slices with a second pass; custom bases and explicit orderings sampled; Engine B width W=10; twin algebras coexisting in one process',
           'thorough': 'd<=2 complete, d=3 5k subset pairs per signature, d=4 all (p,q,r) random sparse, Engine B width W=16'}
 OUTSIDE = ['d > 5 for Engine A', 'blade indices >= 2^W for Engine B', 'floating-point rounding']
 OPTS = {'rlimit': 80_000_000, 'canary_every': 20}
@@ -98,6 +98,16 @@ def cases(tier, seed):
         for i in range(len(R) // 2):
             out.append(dict(kind='products', cfg=cfg, ka=list(R[2 * i]), kb=list(R[2 * i + 1]), defn=False, fresh=True))
         out.append(dict(kind='products', cfg=cfg, ka=[1, 6], kb=[6, 1, 24], defn=False, fresh=True))
+    # d = 9, 10 (beyond the d <= 8 of the quantifier; kept because sparse operands cost nothing): blade masks >= 256, where
+    # bit tricks on the masks have another byte to get wrong (seed C03m).  Fresh algebra per case.
+    for cfg in (dict(p=9), dict(p=8, q=1, r=1)):
+        dd = sum(cfg.values())
+        top = 2 ** dd - 1
+        out.append(dict(kind='products', cfg=cfg, ka=[1, 3, 256, 257, top], kb=[0, 2, 256, 258, top - 1], defn=False, fresh=True))
+        out.append(dict(kind='products', cfg=cfg, ka=[256, 0x180, 0x155], kb=[257, 0x0ff, 0x100 | 0x0f], defn=False, fresh=True))
+        R = pat.RND(dd, 4, rng, max_len=4, min_len=1, order=list(range(2 ** dd)))
+        for i in range(len(R) // 2):
+            out.append(dict(kind='products', cfg=cfg, ka=list(R[2 * i]), kb=list(R[2 * i + 1]), defn=False, fresh=True))
     # wrapper slices: functions are resolved by name at call time (second pass after all are generated)
     for cfg in (dict(p=2, wrapper='identity'), dict(p=1, q=1, wrapper='wraps'), dict(p=2, r=1, wrapper='identity'), dict(p=3, wrapper='wraps')):
         dd = sum(v for k, v in cfg.items() if k in 'pqr')
